@@ -19,6 +19,7 @@ from mc.engine import Res, Space, digest, multisets, viol
 from mc.model import Schema, tabulate
 
 ID = "C10"
+CHUNK = 40
 RULE = ("states = (multiset of <=N respondents, mirrored transform config: insertions incl. differences "
         "on either/both dimensions, explicit / label / opposing-element orders, hides, prune); "
         "non-trivial = the count matrix is not symmetric-trivial (some non-zero cell) and a config "
